@@ -171,6 +171,14 @@ def run(ctx):
         inputs.append(("atoms", a, None))
     with ctx.timed("monitor"):
         outs = common.replay_batch([{"op": "pipeline", "src": s} for _, s, _ in inputs], timeout=6000)
+        # the watchdog reports a stage that did not answer within its limit as TIMEOUT; on a heavily loaded machine that also hits
+        # inputs that take microseconds. A timed-out input is judged by a second run on its own (non-termination is reproducible).
+        slow = [i for i, o in enumerate(outs) if any(p.get("panic") == "TIMEOUT" for p in o.get("obs", {}).get("problems", []))]
+        if slow:
+            again = common.replay_batch([{"op": "pipeline", "src": inputs[i][1]} for i in slow], timeout=6000)
+            for i, o in zip(slow, again):
+                outs[i] = o
+            ctx.stats["watchdog_timeouts_rerun"] = len(slow)
     n = 0
     kinds = {}
     distinct = set()
